@@ -34,4 +34,5 @@ def jobs(tier):
         ]
     out += matrix_jobs('C08', 'm1', tier)
     out += matrix_jobs('C08', 'm2', tier)
+    out += matrix_jobs('C08', 'm3', tier)
     return flat(out)
